@@ -53,6 +53,9 @@ pub struct SeqSpec {
     pub epilogue: Vec<Op>,
     /// cap on explored transitions (reported when hit)
     pub max_transitions: usize,
+    /// operations executed before every explored history (the search starts from the state they
+    /// reach; not counted in the depth)
+    pub prefix: Vec<Op>,
 }
 
 impl SeqSpec {
@@ -70,6 +73,7 @@ impl SeqSpec {
             lazy: false,
             epilogue: vec![],
             max_transitions: usize::MAX,
+            prefix: Vec::new(),
         }
     }
 }
@@ -473,11 +477,11 @@ pub fn bfs(spec: &SeqSpec, threads: usize, known: &KnownFn) -> SeqResult {
     };
     let mut violations: Vec<Violation> = Vec::new();
     let mut known_hits: Vec<(String, Vec<String>)> = Vec::new();
-    let (_, m0, _) = model_history(spec, &[]);
+    let (_, m0, _) = model_history(spec, &spec.prefix);
     let mut seen: HashMap<u64, u64> = HashMap::new(); // (model hash, impl digest) -> impl digest
     let mut seen_models: HashMap<u64, u64> = HashMap::new();
     seen.insert(hash_of(&m0), 0);
-    let mut frontier: Vec<Vec<Op>> = vec![vec![]];
+    let mut frontier: Vec<Vec<Op>> = vec![spec.prefix.clone()];
     let mut distinct_obs: BTreeSet<u64> = BTreeSet::new();
     stats.states = 1;
     for depth in 1..=spec.depth {
@@ -554,7 +558,7 @@ pub fn bfs(spec: &SeqSpec, threads: usize, known: &KnownFn) -> SeqResult {
                 None => {
                     seen.insert(key, obs_digest);
                     stats.states += 1;
-                    if stats.samples.len() < 3 && hist.len() == spec.depth.min(3) {
+                    if stats.samples.len() < 3 && hist.len() == spec.prefix.len() + spec.depth.min(3) {
                         stats.samples.push(hist.iter().map(|o| o.short()).collect());
                     }
                     next_frontier.push(hist);
